@@ -39,7 +39,8 @@ def pre_check(workdir, tier):
     r2 = subprocess.run(["coqc", "-Q", ".", "", "SchemaThm.v"], cwd=d, capture_output=True, text=True, timeout=300)
     ok = r1.returncode == 0 and r2.returncode == 0
     return dict(ok=ok, classes=len(sch["classes"]), flatten_mode=sch["flatten_mode"],
-                theorems=["unflatten_total", "flatten_available", "dict_keys_are_init_fields", "classes_present"],
+                theorems=["unflatten_total", "flatten_available", "dict_keys_are_init_fields", "classes_present", "control_flow_static", "control_flow_seen"],
+                control_flow_tests=len(sch.get("tests", [])),
                 closed=r2.stdout.count("Closed under the global context"), error=(r1.stderr + r2.stderr)[-800:],
                 nonfield_attrs={c["name"]: [a for a in c["attrs"] if a not in dict(c["fields"])] for c in sch["classes"]
                                 if any(a not in dict(c["fields"]) for a in c["attrs"])})
